@@ -111,7 +111,8 @@ Unset == B("unset", <<>>)
 Mod(l, i) == CASE l = "c" -> DoCmd(i) [] l \in {"a", "b"} -> Set(l, i) [] l = "m" -> Upd(1, i)
 
 \* The pool of shapes.  c is the combinator style: fbyR a.followed_by(b.followed_by(c)), fbyL (a.followed_by(b)).followed_by(c),
-\* thenR a.and_then(|_| b.and_then(|_| c)) built lazily, thenL (a.and_then(|_| b)).and_then(|_| c), seq Sequentially::new(vec).
+\* thenR a.and_then(|_| b.and_then(|_| c)) built lazily, thenL (a.and_then(|_| b)).and_then(|_| c), seq Sequentially::new(vec),
+\* join join(a, join(b, c)), ctx / try: like thenR with and_then_contextual / and_then_try.
 Shape(id, s) ==
     LET t1 == T1(s)  t2 == T2(s) IN
     CASE id = 1  -> B("fbyR", <<>>)
@@ -131,10 +132,13 @@ Shape(id, s) ==
       [] id = 15 -> B("fbyR", <<Susp(<<Eff(4), Fail>>), Susp(<<Snap>>)>>)
       [] id = 16 -> B("thenL", <<Get("a"), Mod(t2, 2), Get("b")>>)
       [] id = 17 -> B("fbyR", <<Snap>>)
+      [] id = 18 -> B("join", <<Mod(t1, 1), Mod(t2, 2), Snap>>)               \* join(a, join(b, c)): in order, like a sequence
+      [] id = 19 -> B("ctx", <<Mod(t1, 1), Snap, Mod(t1, 2)>>)                \* and_then_contextual
+      [] id = 20 -> B("try", <<Mod(t2, 1), Mod(t1, 1), Snap>>)                \* and_then_try (Ok)
 
 NoTargetShapes == {1, 2, 7, 12, 15, 17}      \* shapes that modify nothing
 ASSUME MapShapes \subseteq NoTargetShapes
-ASSUME TopShapes \subseteq 1..17 /\ Shapes \subseteq 1..17
+ASSUME TopShapes \subseteq 1..20 /\ Shapes \subseteq 1..20
 
 Pool(s) == {Shape(id, s) : id \in (IF SlotLevel(s) = 0 THEN TopShapes ELSE IF SlotLevel(s) = 4 THEN MapShapes ELSE Shapes)}
 \* lazily fix the body of slot s
